@@ -6,3 +6,5 @@ register_simp_attr keepsConst
 register_simp_attr keepsKernel
 register_simp_attr keepsAuth
 register_simp_attr keepsInit
+register_simp_attr keepsSad
+register_simp_attr keepsOps
